@@ -95,7 +95,29 @@ var wrapFuncs = map[string]bool{
 	"google.golang.org/grpc/status.Errorf": true,
 	"github.com/pkg/errors.Wrap":           true, "github.com/pkg/errors.Wrapf": true,
 	"github.com/pkg/errors.New": true, "github.com/pkg/errors.Errorf": true,
-	"(context.Context).Err": true, // only read after Done(); treated as an error path
+}
+
+// ctxErrAfterDone: ctx.Err() read where ctx.Done() has been consulted before on every path (the
+// `case <-ctx.Done(): return ctx.Err()` idiom): the error is non-nil there. A bare ctx.Err() used as a
+// condition is an ordinary maybe-nil value.
+func ctxErrAfterDone(call *ssa.Call) bool {
+	if CallName(call) != "(context.Context).Err" {
+		return false
+	}
+	for _, d := range CallsIn(call.Parent(), Callee("(context.Context).Done")) {
+		if Dominates(d.(ssa.Instruction), call) {
+			return true
+		}
+	}
+	// or under the true outcome of a repo predicate that looks at ctx.Done() itself (util.IsCancelled(ctx))
+	for _, f := range FactsAtInstr(call) {
+		if pc, ok := f.Cond.(*ssa.Call); ok && f.Val && Current != nil {
+			if h := StaticCallee(pc); h != nil && Current.InRepo(h) && Current.HasCall(h, Callee("(context.Context).Done")) {
+				return true
+			}
+		}
+	}
+	return false
 }
 
 // DefinitelyNonNil: the value is an error on every execution (wrap helper,
@@ -106,7 +128,7 @@ func DefinitelyNonNil(v ssa.Value, facts []Fact) bool {
 	}
 	switch x := v.(type) {
 	case *ssa.Call:
-		return wrapFuncs[CallName(x)]
+		return wrapFuncs[CallName(x)] || ctxErrAfterDone(x)
 	case *ssa.UnOp:
 		if x.Op == token.MUL {
 			if _, ok := x.X.(*ssa.Global); ok {
